@@ -310,6 +310,12 @@ def line_flags(frame, check_strict=True):
     return [utf8, strict]
 
 
+def async_actions():
+    """hex of the actions of lines that are not replies (same list as the generated table)"""
+    from frappy.protocol.messages import EVENTREPLY, ERRORPREFIX, LOG_EVENT
+    return {hx(a.encode()) for a in (EVENTREPLY, ERRORPREFIX + EVENTREPLY, LOG_EVENT, '_')}
+
+
 def obs_frame(frame):
     """(action, specifier, error class, has data) of an emitted line; canonicalisation only"""
     p = (frame[:-1] if frame.endswith(b'\n') else frame).split(b' ', 2) + [b'', b'']
@@ -632,7 +638,7 @@ def signature(ev):
         return 'C07:one_reply_per_line:count'
     if clause == 'reply_fits':
         k = bad['k']
-        replies = [o for o in ev['impl']['outs'] if obs_frame(o)['a'] not in (hx(b'_'), hx(b'update'), hx(b'log'), hx(b'error_update'))]
+        replies = [o for o in ev['impl']['outs'] if obs_frame(o)['a'] not in async_actions()]
         rep = obs_frame(replies[k]) if k < len(replies) else None
         if rep and bytes.fromhex(rep['a']).startswith(b'error_'):
             return 'C07:reply_fits:error-reply'
@@ -675,7 +681,9 @@ def shrink(ctx, ev):
 
 def describe(ev):
     bad = ev['judge']['bad']
-    outs = [o[:120] for o in ev['impl']['outs']][:6]
+    outs = [o[:120] for o in ev['impl']['outs']]
+    if len(outs) > 8:
+        outs = outs[:4] + [f'... {len(outs) - 7} more ...'] + outs[-3:]
     txt = f'{bad}: chunks={[bytes.fromhex(c)[:80] for c in ev["case"]["chunks"]][:6]} dispatcher={ev["case"]["disp"]} sent={outs}'
     if ev['impl']['died']:
         txt += ' HANDLER DIED: ' + ev['impl']['died_text'].strip().splitlines()[-1]
@@ -724,6 +732,7 @@ def run(ctx):
 
     shrunk = 0
     seen_sigs = set()
+    asy = async_actions()
     for lo in range(0, len(cases), 500):
         evs = evaluate(ctx, cases[lo:lo + 500])
         for ev in evs:
@@ -732,9 +741,9 @@ def run(ctx):
             im = ev['impl']
             case = ev['case']
             obs = [obs_frame(o) for o in im['outs']]
-            nerr = sum(1 for o in obs if bytes.fromhex(o['a']).startswith(b'error_'))
-            npos = sum(1 for o in obs if not bytes.fromhex(o['a']).startswith(b'error_')
-                       and o['a'] not in (hx(b'_'), hx(b'update'), hx(b'log')))
+            nerr = sum(1 for o in obs if bytes.fromhex(o['a']).startswith(b'error_') and o['a'] not in asy)
+            npos = sum(1 for o in obs if not bytes.fromhex(o['a']).startswith(b'error_') and o['a'] not in asy)
+            res.count('lines.async', sum(1 for o in obs if o['a'] in asy))
             nlines = ev['stream'].count(b'\n')
             res.count('dispatcher.' + case['disp']['kind'])
             res.count('lines=%s' % (nlines if nlines < 4 else '4+'))
